@@ -6,6 +6,7 @@ AsyncMachine / HierarchicalAsyncMachine on a SelectorEventLoop whose clock jumps
 The same case goes to the Lean model (`c17run`); the implementation's timed trace is compared with the
 model's and is judged by the verified acceptor `C17.accepts` (`c17mon`).
 """
+import asyncio
 import copy
 import hashlib
 import inspect
@@ -29,6 +30,22 @@ RUNAWAY = 500      # a correct run starts at most one timer per entered state
 
 class HandlerError(Exception):
     """raised by an on_timeout handler"""
+
+
+class HandlerAbort(BaseException):
+    """raised by an on_timeout handler: an application exception that is not an `Exception`"""
+
+
+HANDLER_ERRORS = (HandlerError, HandlerAbort, asyncio.CancelledError)
+RAISE_KINDS = ('exc', 'base', 'cancel')
+
+
+def handler_error(kind, sid):
+    if kind == 'base':
+        return HandlerAbort('S%d' % sid)
+    if kind == 'cancel':
+        return asyncio.CancelledError('S%d' % sid)
+    return HandlerError('S%d' % sid)
 
 
 class CallbackError(Exception):
@@ -358,7 +375,14 @@ def _model_class(case, run, is_async):
                         raise
                 if n['raises']:
                     run.rec(RAISED, self.idx, sid)
-                    self.raised = ('timeout', sid, HandlerError('S%d' % sid))
+                    kind = n.get('raise_kind', 'exc')
+                    if kind == 'cancel':
+                        # the usual way an asyncio callback fails: something it waits for was cancelled elsewhere
+                        self.raised = ('timeout', sid, asyncio.CancelledError)
+                        fut = asyncio.get_running_loop().create_future()
+                        fut.cancel()
+                        await fut
+                    self.raised = ('timeout', sid, handler_error(kind, sid))
                     raise self.raised[2]
                 run.rec(FIRED_END, self.idx, sid)
         else:
@@ -373,7 +397,7 @@ def _model_class(case, run, is_async):
                         raise
                 if n['raises']:
                     run.rec(RAISED, self.idx, sid)
-                    self.raised = ('timeout', sid, HandlerError('S%d' % sid))
+                    self.raised = ('timeout', sid, handler_error(n.get('raise_kind', 'exc'), sid))
                     raise self.raised[2]
                 run.rec(FIRED_END, self.idx, sid)
         return f
@@ -383,7 +407,7 @@ def _model_class(case, run, is_async):
         self.raised = None
         if send_event:
             ed = a[0] if a else None
-            if ed is None or ed.error is not err:
+            if ed is None or not (ed.error is err or (isinstance(err, type) and isinstance(ed.error, err))):
                 run.bad.append('on_exception did not receive the error that was raised')
         if kind == 'timeout':        # errors of on_enter / on_exit callbacks are not the timeout feature's business
             run.rec(ROUTED, self.idx, sid)
@@ -473,7 +497,7 @@ def run_threads(case):
                                     '(transitions.extensions.states no longer uses its module global `Timer`)')
     run.handler_errors = [t.error for t in clock.timers if t.error is not None]
     for err in run.handler_errors:
-        if not isinstance(err, (HandlerError, CallbackError)):
+        if not isinstance(err, HANDLER_ERRORS + (CallbackError,)):
             run.bad.append('timer function raised %r' % (err,))
     run.final = [getattr(mo, 'state') for mo in models]
     return run
@@ -726,8 +750,9 @@ def gen_case(rng, cls):
             n['ncb'] = 2 if rng.random() < 0.25 else 1
             if rng.random() < 0.55:
                 n['action'] = rng.randrange(n_events)
-            if rng.random() < (0.2 if is_async else 0.08):
+            if rng.random() < (0.25 if is_async else 0.1):
                 n['raises'] = True
+                n['raise_kind'] = rng.choice(RAISE_KINDS)     # Exception / other BaseException / CancelledError
         elif rng.random() < 0.15:
             n['zero_with_handler'] = True
         if nested and depth < 2 and rng.random() < (0.45 if depth == 0 else 0.25):
@@ -906,7 +931,8 @@ def shrink_steps(case):
             c[key] = val
             yield c
     for sid in sorted(nodes(case)):
-        for key, val in (('raises', False), ('action', None), ('ncb', 1), ('cb_enter', None), ('cb_exit', None)):
+        for key, val in (('raises', False), ('action', None), ('ncb', 1), ('cb_enter', None), ('cb_exit', None),
+                         ('raise_kind', 'exc')):
             if nodes(case)[sid].get(key, val) != val:
                 c = copy.deepcopy(case)
                 nodes(c)[sid][key] = val
@@ -961,7 +987,8 @@ class C17(runner.Check):
                 'TM.C17_unbracketed_counterexample')
     rule = ('random machines with Timeout (Machine, HierarchicalMachine, LockedMachine) or AsyncTimeout (AsyncMachine, '
             'HierarchicalAsyncMachine): 2-4 states (nested up to depth 3, compound states with timeouts of their own), '
-            'timeouts 0-5, 1-2 on_timeout callbacks that may trigger an event or raise, states with no on_enter/on_exit '
+            'timeouts 0-5, 1-2 on_timeout callbacks that may trigger an event or raise (an Exception, another BaseException, '
+            'or asyncio.CancelledError - under asyncio by awaiting a cancelled future), states with no on_enter/on_exit '
             'callback at all / plain ones / on_enter callbacks that trigger an event re-entrantly (unqueued and queued) '
             '/ on_enter and on_exit callbacks that raise (with and without on_exception), 2-3 events incl. reflexive '
             'and internal transitions, 1-3 models, queued or not, send_event on/off; under asyncio the events of one '
@@ -977,7 +1004,7 @@ class C17(runner.Check):
                'the probe state mixin (records enter/exit, delegates to the timeout feature)')
 
     quick = (48, 250)
-    thorough = (128, 1200)
+    thorough = (128, 900)
 
     def explore(self, tier, seed):
         nch, per = self.quick if tier == 'quick' else self.thorough
